@@ -9,7 +9,9 @@
    plen is the PES_packet_length to put on the wire, hstuff the number of 0xFF stuffing bytes in the header. *)
 EXTENDS Bits
 Present(f) == f # <<>>
-NoOpt(sid) == sid \in {190, 191}                      \* padding_stream, private_stream_2: no optional header (the library's rule)
+\* stream ids whose PES packets have no optional header (ISO/IEC 13818-1 2.4.3.7: the PES_packet syntax's first condition):
+\* program_stream_map, padding_stream, private_stream_2, ECM, EMM, DSMCC_stream, ITU-T H.222.1 type E, program_stream_directory
+NoOpt(sid) == sid \in {188, 190, 191, 240, 241, 242, 248, 255}
 TrickByte(t) ==
   LET c == t[1] IN
   Pack(U(c, 3) \o (CASE c \in {0, 3} -> U(t[2], 2) \o U(t[3], 1) \o U(t[4], 2)
